@@ -84,6 +84,12 @@ def run(rep, tier):
             # through a variable holding the sequence (the folding path for Array instructions)
             add(f"(at {sx} (i {i}))",
                 f'(call "(i: int) -> any {{ return {esc_prog(lit)}[i]; }}" (i {i}))', exp, ("at-mixed", kind))
+            # a non-constant array literal indexed by a literal: the folding pass checks the index
+            # against the number of element expressions
+            if kind == "arr" and n > 0:
+                lit2 = "[p, " + lit[1:].split(", ", 1)[1] if n > 1 else "[p]"
+                add(f"(at {sx} (i {i}))",
+                    f'(call "(p: any) -> any {{ return {esc_prog(lit2)}[{lit_int(i)}]; }}" {py[0]})', exp, ("at-nonconst-literal", kind))
         # slicing
         for a, b, c in itertools.product(bounds, repeat=3):
             if c == 0:
